@@ -839,10 +839,66 @@ def compare_model(res, case, obs, outs):
         res.traces += 1
 
 
+def sequence_oracle(rng):
+    """one CosmoLikelihood instance evaluated along a path of parameter vectors in which consecutive
+    vectors differ in exactly ONE parameter: after every step the distances handed to the lens must be
+    the FLRW distances of the CURRENT vector (stale per-parameter caches only show on such paths)"""
+    from hierarc.Likelihood.cosmo_likelihood import CosmoLikelihood
+    fails = []
+    model = rng.choice(MODELS)
+    zd, zs = rng.uniform(0.2, 0.8), rng.uniform(1.2, 2.5)
+    lens = dict(z_lens=zd, z_source=zs, likelihood_type="DdtGaussian", ddt_mean=5000.0, ddt_sigma=500.0)
+    interp = rng.random() < 0.8
+    cl = CosmoLikelihood([lens], model, {}, dict(BOUNDS), interpolate_cosmo=interp, num_redshift_interp=300)
+    names = cl.param.param_list()
+    kw = gen_kw(rng, model)
+    while not physical(flrw_params(model, kw), zs):
+        kw = gen_kw(rng, model)
+    x = [kw[n] for n in names]
+    the_lens = cl._likelihoodLensSample._lens_list[0]
+    steps = 0
+    for step in range(2 * len(names) + 2):
+        j = step % len(names)
+        for _ in range(20):
+            cand = dict(kw)
+            cand[names[j]] = gen_kw(rng, model)[names[j]]
+            if physical(flrw_params(model, cand), zs) and cand[names[j]] != kw[names[j]]:
+                kw = cand
+                break
+        x = [kw[n] for n in names]
+        kc = cl.param.args2kwargs(x)[0]
+        cosmo = cl.cosmo_instance(kc)
+        ddt, dd = the_lens.angular_diameter_distances(cosmo)
+        ref = astropy_of(flrw_params(model, kw))
+        rdd = float(ref.angular_diameter_distance(zd).value)
+        rds = float(ref.angular_diameter_distance(zs).value)
+        rdds = float(ref.angular_diameter_distance_z1z2(zd, zs).value)
+        rddt = (1 + zd) * rdd * rds / rdds
+        tol = 2e-3 if interp else 1e-8
+        steps += 1
+        if abs(float(ddt) / rddt - 1) > tol or abs(float(dd) / rdd - 1) > tol:
+            fails.append("after changing only %s: Ddt, Dd = %r, %r but the FLRW values of the current vector are %r, %r (%s, %s)"
+                         % (names[j], float(ddt), float(dd), rddt, rdd, model, "interpolated" if interp else "exact"))
+            break
+    return fails, model, steps
+
+
 def run(ctx, res):
     np.random.seed(ctx.np_seed())
     rng = ctx.rng
     stats = {}
+    # ---------------- stream 0: one instance, paths changing one parameter at a time
+    for _ in range(ctx.n(12, 120)):
+        try:
+            sf, smodel, ssteps = sequence_oracle(rng)
+        except Exception as e:  # noqa
+            res.notes.append("sequence oracle could not run: %r" % (e,))
+            continue
+        res.evaluations += ssteps
+        res.count("stream=sequence")
+        res.signatures.add(("sequence", smodel))
+        for f in sf:
+            res.violation("sequence:stale-distances:" + smodel, f, {"sequence": True})
     n_valid = ctx.n(260, 3200)
     n_bound = ctx.n(40, 500)
     n_stub = ctx.n(300, 6000)
@@ -1018,6 +1074,13 @@ def replay(ctx, data):
     inp = data["input"]
     kind = inp.get("kind")
     sig = data.get("signature")
+    if inp.get("sequence"):
+        import random
+        for sd in range(60):
+            f = sequence_oracle(random.Random(sd))[0]
+            if f:
+                return True, str(f)
+        return False, "sequence oracle holds"
     if kind == "flrw":
         fails, obs, ref = oracle(inp["case"])
     elif kind == "stub":
